@@ -376,6 +376,7 @@ type AnchorSet struct {
 	Recv  string // "after recv CH": executed after a receive from CH (recv / recvok are bound)
 	Call  string // "at call NAME": executed just before a call of NAME (the callee's parameter names are bound)
 	AfterCall string // "after call NAME": executed when the call returns (parameters and result / result0.. are bound)
+	Optional  bool   // "... optional": the trigger need not occur in the function (no dead-anchor report)
 	Loop  int    // "at loop k": executed at the head of loop k on every iteration
 }
 
@@ -666,6 +667,10 @@ func parseContractFile(path, pkgPath string) (*ContractFile, error) {
 			case "set":
 				// set g = expr after store X | after send CH
 				var as AnchorSet
+				if strings.HasSuffix(rest, " optional") {
+					as.Optional = true
+					rest = strings.TrimSpace(strings.TrimSuffix(rest, " optional"))
+				}
 				body := rest
 				if i := strings.LastIndex(rest, " after store "); i >= 0 {
 					as.Store = strings.TrimSpace(rest[i+len(" after store "):])
